@@ -95,6 +95,44 @@ theorem owner_same_on_replayed_and_restored (pre suf : List Change) (ds : Nat) (
       = (find (run [] (pre ++ suf)) ds).bind (ownerPart · id) := by
   rw [C14.snapshot_cut_fresh pre suf]
 
+open Anndb.Catalogue in
+/-- the owner partition's *id* depends only on the order of the partition ids -/
+theorem ownerPart_id_of_ids (d e : Catalogue.Dataset) (h : d.parts.map (·.id) = e.parts.map (·.id)) (id : List UInt8) :
+    (ownerPart d id).map (·.id) = (ownerPart e id).map (·.id) := by
+  have hl : d.parts.length = e.parts.length := by simpa using congrArg List.length h
+  unfold ownerPart
+  rw [hl, ← List.getElem?_map, ← List.getElem?_map, h]
+
+open Anndb.Catalogue in
+/-- **the owner of an id is fixed when the dataset is created**: on a node that has applied any
+catalogue log with fresh ids — any prefix, any number of replica-set changes, deletions and creations
+of other datasets — a listed dataset routes every id to the partition its creation entry names for
+it. Hence every node, at every time and after every restart, computes the same owner. -/
+theorem owner_fixed_by_the_creation_entry (log : List Change) (d : Catalogue.Dataset)
+    (hd : d ∈ run [] log) (id : List UInt8) :
+    ∃ e ∈ C14.creates log, e.id = d.id ∧ (ownerPart d id).map (·.id) = (ownerPart e id).map (·.id) := by
+  obtain ⟨e, he, h1, h2⟩ := C14.src_run [] [] log (by simp) d hd
+  simp only [List.nil_append] at he
+  exact ⟨e, he, h1, ownerPart_id_of_ids d e h2.2.2.2 id⟩
+
+open Anndb.Catalogue in
+/-- two nodes that have applied different prefixes of one log agree on the owner of every id of a
+dataset both list -/
+theorem nodes_at_different_prefixes_route_alike (pre suf : List Change) (hf : C14.FreshIds (pre ++ suf))
+    (d d' : Catalogue.Dataset) (hd : d ∈ run [] pre) (hd' : d' ∈ run [] (pre ++ suf)) (hid : d.id = d'.id)
+    (id : List UInt8) : (ownerPart d id).map (·.id) = (ownerPart d' id).map (·.id) := by
+  obtain ⟨e, he, h1, h2⟩ := owner_fixed_by_the_creation_entry pre d hd id
+  obtain ⟨e', he', h1', h2'⟩ := owner_fixed_by_the_creation_entry (pre ++ suf) d' hd' id
+  have hmem : e ∈ C14.creates (pre ++ suf) := by rw [C14.creates_append]; exact List.mem_append_left _ he
+  have : e = e' := hf.once e hmem e' he' (by rw [h1, h1', hid])
+  subst this
+  rw [h2, h2']
+
+/-- the positional routing table is written once, when the dataset object is built: nothing sorts,
+shuffles or reassigns it afterwards (regenerated; seeded change C10-D sorts an alias of it inside a
+size query) -/
+theorem routing_table_fixed_in_code : Generated.datasetPartitionTableFixed = true := by decide
+
 /-- the snapshot in the code is the model's: metadata verbatim, no reordering (regenerated) -/
 theorem snapshot_is_verbatim_in_code : Generated.catalogueSnapshotVerbatim = true := by decide
 
